@@ -102,8 +102,9 @@ def run_property(pid: str, tier: str, seed: int, write_lock=False, verbose=False
     native_xc = None
     if tier == "thorough" and not os.environ.get("VERIF_REPO"):
         from .run import cross_check
-        xc = cross_check(results, budget=30)
-        selftest = seed_self_test(pid)
+        skip = set((os.environ.get("VERIF_THOROUGH_SKIP") or "").split(","))      # development aid: second,selftest
+        xc = cross_check(results, budget=30) if "second" not in skip else None
+        selftest = seed_self_test(pid) if "selftest" not in skip else None
         # CPython cross-check: only contracts whose every obligation was discharged (a refuted or undecided one proves nothing)
         proved = [r.name for r in results if not r.unsupported and r.obligations and not r.name.startswith("lemma:") and
                   all(ob.result and ob.result["result"] == "unsat" for ob in r.obligations)]
